@@ -156,6 +156,14 @@ impl Mode {
 struct RunOut {
     outcome: String,
     got: HashMap<usize, Vec<String>>,
+    /// words that produced no result: outcome of the run that was to deliver it
+    failed: HashMap<usize, String>,
+}
+
+impl RunOut {
+    fn outcome_of(&self, i: &usize) -> String {
+        self.failed.get(i).cloned().unwrap_or_else(|| self.outcome.clone())
+    }
 }
 
 fn collect_probes(events: &[Value], got: &mut HashMap<usize, Vec<String>>) {
@@ -172,7 +180,39 @@ fn collect_probes(events: &[Value], got: &mut HashMap<usize, Vec<String>>) {
 }
 
 /// Runs `probe <idx> <word>` for every (idx, word) in one shell over `tree`.
+/// If the shell does not get through the whole script (panic, crash, step
+/// limit), the first word without a result is blamed (its outcome is kept in
+/// `failed`) and the words after it are run in a fresh shell, so that one
+/// failing word costs one verdict, not the rest of the batch.  Failures of the
+/// environment (timeout, chroot) are tool errors: exit 2.
 fn run_batch(tree: &Tree, words: &[(usize, &[Unit])], noglob: bool, mode: Mode) -> RunOut {
+    let mut rest: Vec<(usize, &[Unit])> = words.to_vec();
+    let mut all = RunOut { outcome: "completed".to_string(), got: HashMap::new(), failed: HashMap::new() };
+    let mut restarts = 0;
+    while !rest.is_empty() {
+        let r = run_batch_once(tree, &rest, noglob, mode);
+        if r.outcome == "timeout" || r.outcome.starts_with("status 97") {
+            eprintln!("yv-c05: {} run failed for environmental reasons: {}", mode.name(), r.outcome);
+            std::process::exit(2);
+        }
+        all.got.extend(r.got);
+        match rest.iter().position(|(i, _)| !all.got.contains_key(i)) {
+            None => break,
+            Some(k) => {
+                all.failed.insert(rest[k].0, if r.outcome == "completed" { "no probe event".to_string() } else { r.outcome.clone() });
+                rest = rest[k + 1..].to_vec();
+                restarts += 1;
+                if restarts > 25 {
+                    eprintln!("yv-c05: more than 25 failing words in one batch ({}): giving up", r.outcome);
+                    std::process::exit(2);
+                }
+            }
+        }
+    }
+    all
+}
+
+fn run_batch_once(tree: &Tree, words: &[(usize, &[Unit])], noglob: bool, mode: Mode) -> RunOut {
     let mut script = String::new();
     if noglob {
         script.push_str("set -f\n");
@@ -194,9 +234,9 @@ fn run_batch(tree: &Tree, words: &[(usize, &[Unit])], noglob: bool, mode: Mode) 
                         Outcome::Completed => "completed".to_string(),
                         _ => r.outcome_str(),
                     };
-                    RunOut { outcome, got }
+                    RunOut { outcome, got, failed: HashMap::new() }
                 }
-                Err(msg) => RunOut { outcome: format!("panic: {msg}"), got },
+                Err(msg) => RunOut { outcome: format!("panic: {msg}"), got, failed: HashMap::new() },
             }
         }
         Mode::Real => {
@@ -229,7 +269,7 @@ fn run_batch(tree: &Tree, words: &[(usize, &[Unit])], noglob: bool, mode: Mode) 
             } else {
                 "completed".to_string()
             };
-            RunOut { outcome, got }
+            RunOut { outcome, got, failed: HashMap::new() }
         }
     }
 }
@@ -336,7 +376,7 @@ fn replay(args: &[String]) {
                 let rec = json!({
                     "mode": mode.name(), "tree": tree.to_json(), "links": tree.has_links(), "real": real_state,
                     "units": units_to_json(us), "text": format!("{pre}probe {word}"), "field": cases[*i].ng, "noglob": false,
-                    "allowed": allowed, "observed": r.got.get(i), "missing": !r.got.contains_key(i), "outcome": r.outcome,
+                    "allowed": allowed, "observed": r.got.get(i), "missing": !r.got.contains_key(i), "outcome": r.outcome_of(i),
                 });
                 writeln!(out, "{rec}").unwrap();
             };
@@ -379,7 +419,7 @@ fn replay(args: &[String]) {
                         let rec = json!({
                             "mode": mode.name(), "tree": tree.to_json(), "links": tree.has_links(), "real": "notrun",
                             "units": units_to_json(us), "text": format!("set -f; {pre}probe {word}"), "field": cases[*i].ng, "noglob": true,
-                            "allowed": [want], "observed": r.got.get(i), "missing": !r.got.contains_key(i), "outcome": r.outcome,
+                            "allowed": [want], "observed": r.got.get(i), "missing": !r.got.contains_key(i), "outcome": r.outcome_of(i),
                         });
                         writeln!(out, "{rec}").unwrap();
                     }
@@ -597,10 +637,10 @@ fn random(args: &[String]) {
                 n += 1;
             };
             if gs == gr {
-                emit("both", gs, &rs.outcome);
+                emit("both", gs, &rs.outcome_of(i));
             } else {
-                emit("sim", gs, &rs.outcome);
-                emit("real", gr, &rr.outcome);
+                emit("sim", gs, &rs.outcome_of(i));
+                emit("real", gr, &rr.outcome_of(i));
             }
         }
     }
